@@ -13,6 +13,7 @@ import (
 
 type Env struct {
 	ex        *Exec
+	lst       *State // state used for local variables (nil: same as st)
 	st        *State
 	old       *State
 	loopEntry *State
@@ -50,7 +51,15 @@ func (env *Env) with(name string, v *Value) *Env {
 func (env *Env) inState(st *State) *Env {
 	n := *env
 	n.st = st
+	n.lst = nil
 	return &n
+}
+
+func (env *Env) localsState() *State {
+	if env.lst != nil {
+		return env.lst
+	}
+	return env.st
 }
 
 type specError struct{ msg string }
@@ -259,7 +268,7 @@ func (ex *Exec) localByName(env *Env, name string) *Value {
 		}
 		return nil
 	}
-	if cell, ok := env.st.locals[a]; ok {
+	if cell, ok := env.localsState().locals[a]; ok {
 		return cell
 	}
 	if r, ok := env.fr.regs[a]; ok {
@@ -606,8 +615,9 @@ func (ex *Exec) specCall(env *Env, e *ECall) *Value {
 		if env.old == nil {
 			specFail("old() without a pre-state")
 		}
+		// old() switches the heap only; local variables keep their current values
 		n := env.inState(env.old.clone())
-		// parameters in old() keep their entry values automatically
+		n.lst = env.localsState()
 		return ex.evalSpec(n, e.Args[0])
 	case "entry":
 		if env.loopEntry == nil {
@@ -639,6 +649,9 @@ func (ex *Exec) specCall(env *Env, e *ECall) *Value {
 		return ex.specInt(tb.Mod(arg(0).C[0], tb.Int(65536)))
 	case "wrap32":
 		return ex.specInt(tb.Mod(arg(0).C[0], tb.BigInt(new(big.Int).Lsh(big.NewInt(1), 32))))
+	case "wrap32s":
+		h := tb.BigInt(new(big.Int).Lsh(big.NewInt(1), 31))
+		return ex.specInt(tb.Sub(tb.Mod(tb.Add(arg(0).C[0], h), tb.BigInt(new(big.Int).Lsh(big.NewInt(1), 32))), h))
 	case "div":
 		return ex.specInt(tb.Div(arg(0).C[0], arg(1).C[0]))
 	case "mod":
